@@ -878,6 +878,8 @@ def r_local(E):
                    and x.func.attr == "tz_localize"]:
             ne = next((k.value for k in c_.keywords if k.arg == "nonexistent"), None)
             am = next((k.value for k in c_.keywords if k.arg == "ambiguous"), None)
+            if ne is None and am is None:
+                continue      # (no reading of its own: such a call raises on a skipped / repeated hour, or its zone has none)
             readings.append((rel_, c_, norm(ne) if ne is not None else "<default: raise>", _amb(am)))
     res.instances += len(readings)
     # (a single shared localisation is consistent with itself; that both readers localise at all is judged above)
